@@ -328,6 +328,10 @@ theorem step_inv {α} (one : List Nat → Int → Bool → Except ErrKind α) (a
     | error e => exact hinv
     | ok r => obtain ⟨s', fr⟩ := r; exact (revalidate_inv all s s' fr hinv hr).1
   | replace pd => intro src fr h; exact hinv src fr h
+  | scribble i =>
+    -- the caller's write cannot reach the cache: the cached branches hand out copies (regenerated constants)
+    have : step one all n s (.scribble i) = s := by simp [step, singleCachedIsCopy, batchCachedIsCopy]
+    rw [this]; exact hinv
 
 theorem run_inv {α} (one : List Nat → Int → Bool → Except ErrKind α) (all : List Nat → Except ErrKind (List α)) (n : Int)
     (s : Img α) (ops : List Op) (hinv : Inv all s) : Inv all (run one all n s ops) := by
